@@ -4,7 +4,7 @@ claims and the rules evolve together)."""
 import json, os
 
 NA = [
- ("C09", "linearizability is a predicate over concurrent histories under all schedules, retries and crashes; no structural clause of the Go source is both statically checkable and necessary for it (spec fidelity is reported under C02)"),
+ ("C09", "linearizability is a predicate over concurrent histories under all schedules, retries and crashes; no structural clause of the Go source is both statically checkable and necessary for it (a divergence of raftkvs.go / the client from the spec is reported by C02, which is not a necessary condition of linearizability)"),
  ("C14", "replica agreement + linearizability of the primary-backup store are invariants over all reachable states of a distributed protocol; their truth is not in the shape of any Go function, and spec fidelity (C02) is not a necessary condition"),
  ("C15", "mutual exclusion and FIFO service order under a bag network are state-space invariants of the lock-service protocol; not decidable by a sound static argument over the generated Go"),
  ("C16", "the remaining systems' safety invariants (exactly-once hand-off, proxy accuracy, counter totals, CRDT convergence) quantify over all interleavings and crash sequences; only spec fidelity is statically visible and that is C02's verdict, not a necessary condition of these invariants"),
@@ -12,6 +12,10 @@ NA = [
 
 # property -> (technique, level text, level note, design ref)
 CLAIMED = {
+ "C08": ("type-resolved value-flow query over the bootstrap wiring + the C07 lock typestate rules",
+         "One structural clause outside the generated code that the Raft invariants need: each of the 12 per-server state variables is bound, in all five archetype contexts of a server, to MakeLocalShared() of one LocalSharedManager created once per server (optionally wrapped by MakePersistent), no two variables alias one manager, and the shared cell is accessed under strict two-phase locking with a capacity-1 lock (RAFT-WIRING + LS-2PL + LS-CAP1). The invariants themselves (ElectionSafety, LogMatching, LeaderCompleteness, StateMachineSafety, LeaderAppendOnly) are NOT decided: they are spec-level facts; divergence of raftkvs.go from the model-checked spec is reported under C02.",
+         "trusts go/types and go/cfg; the list of shared variables is read off the archetype parameters of raftkvs.tla and frozen in the checker",
+         "DESIGN.md section 4, C08"),
  "C02": ("purely syntactic translation validation: MPCal front end + re-implemented normalisation on the spec side, inverted code-generator templates on the Go side, canonical token streams compared",
          "For every checked-in spec/Go pair (23, discovered by the MakeMPCalJumpTable literal) each critical section, archetype/procedure table entry and operator definition of the generated Go is compared token by token with the canonical rendering of the MPCal source after the compiler's own normalisations (macro expansion, label flattening with synthetic gotos, while->if, multiple-assignment desugaring); every resource read must be used exactly once; every Goto/Call target must exist in the tables. An edit of generated Go (or of a spec) that changes an operator, operand, constant, index, target, statement or drops/adds a read is reported with the first differing token. It does not cover the PlusCal back end, regroupings that preserve token order, or the Scala compiler itself.",
          "trusts that checker/specmatch mirrors MPCalNormalizePass / MPCalGoCodegenPass (validated: all 533 obligations of the 23 pairs agree on the pinned tree) and the Scala symbol tables read by checker/scalatab",
@@ -49,19 +53,19 @@ CLAIMED = {
          "trusts go/types and go/cfg; two defects found by these rules were repaired in /repo (fix: commits 59f41d35, 73701ef6)",
          "DESIGN.md section 4, C04"),
  "C03": ("AST/CFG + type-resolved value-flow rules over package tla; lexical cross-check of the Scala operator tables",
-         "Necessary structural conditions of 'evaluates as TLA+ defines or fails loudly, never hangs' decided for every function of package tla on all paths: iterator loops advance (ITER-ADVANCE, workspace-wide), no truncating / or % and no unchecked int32 arithmetic reaches MakeNumber (DIVMOD-FLOOR, ARITH-CHECKED), explicit panics wrap ErrTLAType (PANIC-TYPED), sequence accesses are bounds-checked (SEQ-BOUNDS), all operands are used (PARAM-USED), SUBSET is not provably linear (CARD-BOUND), and every operator the compiler can emit exists with the declared arity (OPTABLE). It does not decide value-level correctness of an operator.",
+         "Necessary structural conditions of 'evaluates as TLA+ defines or fails loudly, never hangs' decided for every function of package tla on all paths: iterator loops advance (ITER-ADVANCE, workspace-wide); no truncating / or % and no unchecked int32 arithmetic reaches MakeNumber (DIVMOD-FLOOR, ARITH-CHECKED); comparison and non-commutative arithmetic operators apply the Go operator their symbol names to the operands in source order, a..b counts lhs..rhs inclusive (OP-RELATION); f @@ g lets the left operand win (OVERRIDE-DIR); explicit panics wrap ErrTLAType (PANIC-TYPED); sequence accesses are bounds-checked and 1-based (SEQ-BOUNDS, INDEX-BASE); map lookups never discard their ok result (GET-OK-USED); all operands are used (PARAM-USED); SUBSET is not provably linear (CARD-BOUND); every operator the compiler can emit exists with the declared arity (OPTABLE). Value-level correctness of every operator on every input is not decided.",
          "trusts go/types+go/cfg, the exception tables (one symbol + reason each) and that the accepted idioms listed in DESIGN.md section 4/C03 are the only sound ones",
          "DESIGN.md section 4, C03"),
  "C05": ("type-level query over all 42 packages (go/types) + AST shape rules on Hash/Equal/Gob methods",
-         "Decides for every comparison, switch and map type of the workspace that Go identity is never applied to a type containing tla.Value (VAL-IDENTITY); that no persistent update result is discarded (PURE-UNUSED); that Value.data is never dereferenced without a nil check (EQ-NILSAFE); that unordered kinds hash commutatively (HASH-COMMUT); that GobEncode/GobDecode pairs agree in type sequence and loop structure (GOB-PAIR) and every value kind / CRDT type is gob-registered (GOB-REG). These are necessary conditions of coherent equality/hash/encoding; the algebraic laws themselves are not decided.",
+         "Decides for every comparison, switch and map type of the workspace that Go identity is never applied to a type containing tla.Value (VAL-IDENTITY); that no persistent update result is discarded (PURE-UNUSED); that Value.data is never dereferenced without a nil check and value kinds see other values only through the Value API, which forwards through the causal wrapper (EQ-NILSAFE, DATA-ENCAPSULATED); that unordered kinds hash commutatively (HASH-COMMUT); that the hash map confirms every bucket hit with Equal (HASHMAP-EQ); that GobEncode/GobDecode pairs agree in type sequence and loop structure and every value kind / CRDT type is gob-registered (GOB-PAIR, GOB-REG). These are necessary conditions of coherent equality/hash/encoding; the algebraic laws themselves are not decided.",
          "trusts go/types and the rule code; 4 map-key sites are recorded as known findings (known_findings.json)",
          "DESIGN.md section 4, C05"),
  "C11": ("type-level identity query on the 2PC source file + CFG rules on twopc.go",
-         "Decides the transport-independence clause: in the file declaring the 2PC resource no ==, !=, switch or map key is applied to tla.Value (gob-decoded ids are fresh pointers, so identity makes the RPC transport diverge from the in-process one: an Abort is never honoured and contenders livelock). Agreement / progress over message schedules are not decided.",
+         "Decides the transport-independence clause (no ==, !=, switch or map key on tla.Value in the 2PC source: gob-decoded ids are fresh pointers) and the acceptor/proposer rules on the control-flow graphs of twopc.go: versions only grow (TPC-VERSION); a failed pre-commit and an aborted pre-committed section roll back (TPC-RELEASE); every request type is handled and answered (TPC-EXHAUST); an Abort releases only its owner's pre-commit, pre-commits respect the local section state, installing a value releases a decided pre-commit and poisons the section in flight (TPC-ACCEPTOR). Agreement / progress over all message schedules are not decided.",
          "trusts go/types; the senderTimes map is a recorded known finding (cannot be repaired without editing the unedited test's struct literal)",
          "DESIGN.md section 4, C11"),
  "C12": ("type-resolved discarded-result query + gob shape rules over the CRDT value types",
-         "Decides that no update of a persistent collection, vector clock or CRDT value computed in Merge/Write is discarded (PURE-UNUSED: a discarded Set in Merge means merge is not an upper bound of its arguments) and that the three CRDT types encode and decode the same gob sequence and are registered (GOB-PAIR, GOB-REG). The semilattice laws on values are not decided.",
+         "Decides shape-level necessary conditions of the CRDT semilattice laws: no update of a persistent collection / clock / CRDT value computed in Merge or Write is discarded (PURE-UNUSED); max-map merges store a peer's entry only when absent or strictly greater (MERGE-MONO) and decide each component from that component alone (MERGE-COMPONENT); AWORSet.Write starts a fresh clock only when neither map knows the element (WRITE-INFLATES); Merge/Read are pure functions of their arguments (MERGE-PURE); the three CRDT types encode and decode the same gob sequence and are registered (GOB-PAIR, GOB-REG). The laws on all reachable states are not decided.",
          "trusts go/types and the callee table of persistent operations (immutable.Map/List/SortedMap, tla.VClock, CRDTValue)",
          "DESIGN.md section 4, C12"),
 }
